@@ -33,7 +33,22 @@ for patch in sys.argv[1:]:
             continue
         f = Facts(fdir, "FULL")
         det = {}
-        for p in ALL:
+        mods_here = ALL
+        if os.environ.get("SEEDSCAN_RELEVANT"):
+            # only the modules that analyse a crate the patch touches (C20 analyses all of them)
+            touched = set()
+            for line in open(patch):
+                if line.startswith("+++ b/crates/"):
+                    touched.add(line.split("/")[2].replace("-", "_"))
+            def crates_of(p_):
+                m_ = mods[p_]
+                cs = set(getattr(m_, "CONFIG_CRATES", []))
+                if getattr(m_, "CRATE", None):
+                    cs.add(m_.CRATE)
+                return cs
+            mods_here = [p_ for p_ in ALL if p_ == "C20" or "tower_resilience_core" in touched or (crates_of(p_) & touched)
+                         or (p_ in ("C08", "C13", "C14") and touched & {"tower_resilience_retry", "tower_resilience_reconnect", "tower_resilience_adaptive", "tower_resilience_core"})]
+        for p in mods_here:
             fails = selftest._failed(mods[p], p, f, runner) - base[p]
             if fails:
                 det[p] = sorted(fails)
